@@ -313,6 +313,19 @@ func (c Cap) ApproxEqual(other Cap) bool {
 		other.IsFull() && r2 >= 2-epsilon
 }
 
+// roundedUp returns the cap with its radius increased by a few ulps. Bounding
+// caps of other regions are built from a handful of extreme points (cell or
+// rectangle vertices); another point of the region can be farther from the
+// centre than all of them by a rounding error, and such a bound must still
+// contain it.
+func (c Cap) roundedUp() Cap {
+	if c.IsEmpty() || c.IsFull() {
+		return c
+	}
+	d := math.Sqrt(float64(c.radius)) + 4*dblEpsilon
+	return CapFromCenterChordAngle(c.center, s1.ChordAngle(math.Min(4, d*d*(1+8*dblEpsilon))))
+}
+
 // AddPoint increases the cap if necessary to include the given point. If this cap is empty,
 // then the center is set to the point with a zero height. p must be unit-length.
 func (c Cap) AddPoint(p Point) Cap {
